@@ -1660,6 +1660,10 @@ class Interp:
 
     def binop(self, op, a, b):
         opn = type(op).__name__
+        if hasattr(a, "sym_binop"):
+            return a.sym_binop(self, opn, b, False)
+        if hasattr(b, "sym_binop"):
+            return b.sym_binop(self, opn, a, True)
         # strings
         if isinstance(a, (str, SStr)) and not isinstance(a, bool):
             if opn == "Mod":
@@ -2568,6 +2572,11 @@ def havoc_like(path, name, v):
         return path.fresh("hv_" + name, z3.IntSort())
     if isinstance(v, float):
         return path.fresh("hv_" + name, z3.RealSort())
+    if isinstance(v, (str, SStr)) or type(v).__name__ == "GText":
+        # a string built up by the loop: prefix ++ (one structured piece per recorded append)
+        from .gsets import GText
+
+        return GText.havocked(v, "%s_%d_%d" % (name, len(path.taken), path.n))
     raise Unsupported("cannot havoc %s = %r" % (name, v))
 
 
